@@ -500,9 +500,9 @@ func (c *CollectionFeature) MergeFrom(other Feature) {
 
 func (c *CollectionFeature) MergeFromCollectionFeature(other *CollectionFeature) {
 	c.CollectionID = other.CollectionID
-	c.Tags = other.Tags
-	c.Keys = other.Keys
-	c.Values = other.Values
+	c.Tags = other.Tags.Clone()
+	c.Keys = append([]interface{}(nil), other.Keys...)
+	c.Values = append([]interface{}(nil), other.Values...)
 	c.sorted = other.sorted
 }
 
